@@ -494,8 +494,8 @@ func (e *Explorer) violated(neg, label string) {
 			mdl, order = e.model()
 		}
 		e.pop()
-		if r == "unsat" {
-			return // path itself infeasible
+		if r != "sat" {
+			return // infeasible, or undecided (already counted as inconclusive by check)
 		}
 		e.record(label, mdl, order, "")
 		return
